@@ -410,7 +410,11 @@ class Sym:
             return NotImplemented
         a, b = (o, self.e) if reflected else (self.e, o)
         a, b = _num2(a, b)
-        r = Sym(op(a, b))
+        try:
+            r = Sym(op(a, b))
+        except (z3.Z3Exception, TypeError) as e:
+            # e.g. an ordering comparison on an abstract value (sort V): outside what the proxies model
+            raise EngineLimit("operation not defined on these proxy sorts (%s / %s): %s" % (a.sort(), b.sort(), str(e)[:80]))
         if r.e.sort() == z3.RealSort():
             ofp = other.fp if isinstance(other, Sym) else 0
             if max(self.fp, ofp) >= 1:
